@@ -5,9 +5,10 @@ package main
 var propSpecs = map[string]*PropSpec{
 	"C06": {
 		ID: "C06", Title: "State machine and claim invariants hold on every path",
-		Funcs:     []string{"validateTransition", "validateClaimInvariant", "newEvent", "buildSetEvents"},
+		Funcs:     []string{"validateTransition", "validateClaimInvariant", "newEvent", "buildSetEvents", "applyTombstone", "sortedKeys", "replayEvents"},
 		Technique: "contract-based deductive verification: postconditions of the transition table, the claim rule and the set-event builder over the (state, claimant) projection of replay",
-		Assume:    []string{"the (state, claimant) effect of an event list is the fold of the replay step; that the real replay loop implements this step is the obligation group replayEvents/step[...] (C06 lists it when it is under contract)"},
+		Assume:    []string{"the (state, claimant) effect of an event list is the fold of the replay step evState/evClaim; replayEvents/loop0/step[state-claim] proves, for every event type and every back edge of the real loop, that one iteration applies exactly this step to every live item (frame included)",
+			"induction over command sequences (every writer preserves the invariant, replay is a left fold) is the standard soundness argument of invariants; the writers other than the set path are not yet under contract"},
 	},
 	"C08": {
 		ID: "C08", Title: "ready/blocked mean what the manual says; claim takes the oldest ready task",
@@ -16,7 +17,8 @@ var propSpecs = map[string]*PropSpec{
 	},
 	"C09": {
 		ID: "C09", Title: "prune removes exactly finished work; pruned ids are gone for good",
-		Funcs:     []string{"selectPruneTargets"},
-		Technique: "contract-based deductive verification: exact prune policy as a postcondition with five loop invariants",
+		Funcs:     []string{"selectPruneTargets", "applyTombstone", "sortedKeys", "replayEvents"},
+		Technique: "contract-based deductive verification: exact prune policy as a postcondition with five loop invariants; tombstone exclusion as a loop invariant of the real replay loop for every event list",
+		Assume:    []string{"tombExcluded is proved preserved by every case of the replay loop for arbitrary (also hand-merged) event lists; command guards against pruned ids and id reuse are not yet under contract"},
 	},
 }
